@@ -168,7 +168,9 @@ func (o *Obligation) discharge(w *World, dir string, timeout int, all bool) {
 			o.Solver = r.solver
 			o.Time = r.time
 			cancel()
-			os.Remove(file)
+			if os.Getenv("SPOKVC_KEEPALL") == "" {
+				os.Remove(file)
+			}
 			return
 		}
 		if r.status == "sat" && !all {
@@ -193,7 +195,9 @@ func (o *Obligation) discharge(w *World, dir string, timeout int, all bool) {
 	o.Detail = strings.Join(details, " ")
 	if all && nUnsat > 0 && nSat == 0 {
 		o.Status = "discharged"
-		os.Remove(file)
+		if os.Getenv("SPOKVC_KEEPALL") == "" {
+			os.Remove(file)
+		}
 		return
 	}
 	if all && nUnsat > 0 && nSat > 0 {
